@@ -1,6 +1,7 @@
 import NTV.Driver.Parse
 import NTV.Model.PolyZ
 import NTV.Spec.PolyZ
+import NTV.Spec.PolyZBound
 /-! Driver ops for C07 (`poly_z::factorize`).
 `pz.factor a expected draws => c|f1^e1;f2^e2;…` (the list exactly as returned: its order is determined by
 the algorithm and the draws of the modular factorizer, so the comparison with the model is textual; `_` =
@@ -90,5 +91,21 @@ def opCli : Handler := fun args impl =>
     | _, _ => bad
   | _ => bad
 
-def ops : List (String × Handler) := [("pz.factor", opFactor), ("cli.pz", opCli)]
+/-- `pz.bound a => B`: the bound the implementation chose for the squarefree primitive `a` must satisfy the
+hypothesis `boundOk a B` of `NTV.PolyZ.mignotte_symmetric_range_boundOk` (the one place where the correctness
+proof uses the bound). The model's own bound is shown for information only: a different bound that still
+satisfies the hypothesis is not an error. -/
+def opBound : Handler := fun args impl =>
+  match args with
+  | [as] => match parseInts? as, impl.toInt? with
+    | some a, some B =>
+      if a.length < 2 then bad
+      else
+        let v := if NTV.Spec.PolyZ.boundOk a B then "ok"
+          else s!"fail:hyp:NTV.C07.accepted_bound_suffices:modulus-bound-below-the-proved-requirement(model={NTV.PolyZ.coeffBound a (a.length - 1)})"
+        ("-", v)
+    | _, _ => bad
+  | _ => bad
+
+def ops : List (String × Handler) := [("pz.factor", opFactor), ("cli.pz", opCli), ("pz.bound", opBound)]
 end NTV.Driver.C07
